@@ -128,7 +128,7 @@ func (g *engine) forward(pc pathCase, rawPath []byte, traceroute bool) ([]string
 	if err != nil {
 		return nil, stop{}, false
 	}
-	first := uint16(pc.p.Metadata.Interfaces[0].ID)
+	_, first := hopIfs(pc.dec, 0) // the host hands the packet to the router owning the first egress
 	pl, ok := g.rn.hostEntry(pc.src, first)
 	if !ok {
 		return nil, stop{}, false
@@ -161,24 +161,28 @@ func nRoutersOnPath(g *engine, pc pathCase) []int {
 	var o []int
 	for _, i := range pc.p.Metadata.Interfaces {
 		a := g.w.net.ByIA(i.IA)
+		if a == nil || a.Ifs[uint16(i.ID)] == nil {
+			o = append(o, -1)
+			continue
+		}
 		o = append(o, a.Ifs[uint16(i.ID)].Router)
 	}
 	return o
 }
 
 // c03 reverses the delivered packet at the destination host and sends the reply.
-func (g *engine) c03(pc pathCase, st stop) {
+func (g *engine) c03(pc pathCase, st stop, prop string) {
 	n := g.w.net
 	h, err := parse(st.lastRaw)
 	if err != nil {
-		g.e.Violate("C03/"+pc.shape, "delivered packet does not decode", g.replay(pc, nil))
+		g.e.Violate(prop+"/"+pc.shape, "delivered packet does not decode", g.replay(pc, nil))
 		return
 	}
 	rp := h.s.Path.(*scion.Raw)
 	before := flat(h.dec)
 	rv, err := rp.Reverse()
 	if err != nil {
-		g.e.Violate("C03/"+pc.shape, "cannot reverse the delivered path: "+err.Error(), g.replay(pc, nil))
+		g.e.Violate(prop+"/"+pc.shape, "cannot reverse the delivered path: "+err.Error(), g.replay(pc, nil))
 		return
 	}
 	rr := rv.(*scion.Raw)
@@ -189,11 +193,11 @@ func (g *engine) c03(pc pathCase, st stop) {
 	}
 	pkt, err := mkPacket(n.AS[pc.dst].IA, n.AS[pc.src].IA, dstHost, srcHost, rawRev, false)
 	if err != nil {
-		g.e.Violate("C03/"+pc.shape, "cannot build the reply", g.replay(pc, nil))
+		g.e.Violate(prop+"/"+pc.shape, "cannot build the reply", g.replay(pc, nil))
 		return
 	}
 	ifs := rev(pc.ifs)
-	firstIf := uint16(pc.p.Metadata.Interfaces[len(pc.p.Metadata.Interfaces)-1].ID)
+	firstIf, _ := hopIfs(pc.dec, pc.dec.NumHops-1)
 	pl, ok := g.rn.hostEntry(pc.dst, firstIf)
 	if !ok {
 		return
@@ -201,7 +205,7 @@ func (g *engine) c03(pc pathCase, st stop) {
 	tr, fin := g.rn.run(pl, pkt, pc.shape)
 	g.e.Case("rev|"+pc.shape+"|"+strings.Join(ifs, " "), "reverse/"+pc.shape, false)
 	if !(fin.kind == "delivered" && fin.as == pc.src && fin.host == srcHost.String() && same(tr, ifs)) {
-		g.e.Violate("C03/"+pc.shape, fmt.Sprintf("reply over the reversed %s path from %s back to %s: %s at %s "+
+		g.e.Violate(prop+"/"+pc.shape, fmt.Sprintf("reply over the reversed %s path from %s back to %s: %s at %s "+
 			"(disposition %d, slow %d/%d); crossed %v, expected %v", pc.shape, n.AS[pc.dst].IA, n.AS[pc.src].IA, fin.kind,
 			n.AS[fin.as].IA, fin.res.Disp, fin.res.SlowType, fin.res.SlowCode, tr, ifs),
 			g.replay(pc, map[string]any{"reversed_path": hex.EncodeToString(rawRev), "trace": tr}))
@@ -370,6 +374,9 @@ func (g *engine) expectReply(pc pathCase, st stop, what string, key string, want
 		if fin.kind != "delivered" || fin.as != pc.src {
 			what += fmt.Sprintf(": answer %s at %s (disposition %d, slow %d/%d) instead of being delivered to the source host",
 				fin.kind, n.AS[fin.as].IA, fin.res.Disp, fin.res.SlowType, fin.res.SlowCode)
+		} else if fin.host != srcHost.String() {
+			what += fmt.Sprintf(": what the router sends back ends up at host %s of the source AS, not at the sender %s",
+				fin.host, srcHost)
 		}
 		for k, v := range extra {
 			m[k] = v
@@ -530,8 +537,8 @@ func main() {
 		"routers; distinct = (path shape, interface sequence, routers, injected fault/tampered bit); model lines = distinct " +
 		"router invocations / slow-path replies / reversals"
 	prop := e.Prop
-	nWorlds := map[string]int{"C02": e.N(60, 600), "C22": e.N(40, 300), "C03": e.N(60, 600), "C04": e.N(14, 60),
-		"C10": e.N(12, 100)}[prop]
+	nWorlds := map[string]int{"C02": e.N(60, 400), "C22": e.N(25, 150), "C03": e.N(30, 200), "C04": e.N(7, 12),
+		"C10": e.N(8, 40)}[prop]
 	if nWorlds == 0 {
 		nWorlds = e.N(10, 50)
 	}
@@ -556,12 +563,12 @@ func main() {
 			case "C02", "C22":
 				st, ok := g.c02(pc, prop)
 				if ok && prop == "C22" {
-					g.c03(pc, st)
+					g.c03(pc, st, prop)
 				}
 			case "C03":
 				st, ok := g.c02(pc, prop)
 				if ok {
-					g.c03(pc, st)
+					g.c03(pc, st, prop)
 				}
 			case "C04":
 				if len(pcs) > 25 && !e.Thorough() && r.Chance(60) {
